@@ -115,6 +115,10 @@ func (c *Chain) newLFBTicket(b *block.Block) (ticket *LFBTicket) {
 }
 
 func (c *Chain) verifyLFBTicket(lfbt *LFBTicket) bool {
+	// only a sharder of the current magic block may issue LFB tickets
+	if mb := c.GetCurrentMagicBlock(); mb == nil || mb.Sharders == nil || !mb.Sharders.HasNode(lfbt.SharderID) {
+		return false
+	}
 	var sharder = node.GetNode(lfbt.SharderID)
 	if sharder == nil {
 		return false // unknown or missing node
